@@ -240,7 +240,28 @@ def gen_history(rng):
     probe = {'slot': pi, 'abbr': rng.choice(CSS_OK if styl else MARKUP_OK)}
     if rng.random() < 0.3:
         probe['abbr'] = rng.choice([c['abbr'] for c in calls])
-    return {'slots': slots, 'calls': calls, 'probe': probe}
+    h = {'slots': slots, 'calls': calls, 'probe': probe}
+    if rng.random() < 0.2:
+        # the caller edits the kept configuration IN PLACE between the history and the probe (a Config object's tables, or its own dictionary): the
+        # probe then has the arguments a fresh process would build with the edit already in them
+        if styl:
+            h['edit'] = rng.choice([{'snippets': {'zzq': 'float:left'}}, {'snippets': {'m': 'margin-inline', 'p': 'padding-block:1|2'}}, {'options': {'stylesheet.intUnit': 'pt'}},
+                                    {'snippets': {'zzq': 'zed:9'}, 'options': {'stylesheet.between': ' = '}}])
+            probe['abbr'] = rng.choice(['zzq', 'm10', 'p+zzq', 'm10+p', 'zzq+m1-2'])
+        else:
+            h['edit'] = rng.choice([{'snippets': {'vs': 'x-edit.e'}}, {'snippets': {'a': 'a[href=edit]', 'vs': 'x-e>x-f'}}, {'options': {'output.indent': '..'}}, {'variables': {'lang': 'ed'}}])
+            probe['abbr'] = rng.choice(['vs', 'a>vs', 'html[lang=${lang}]>vs', 'ul>li*2>a'])
+    return h
+
+
+def apply_edit(target, edit):
+    "in place: on the tables of a Config object, or on the sections of the caller's own dictionary"
+    for sect, kv in edit.items():
+        if hasattr(target, 'options'):
+            getattr(target, sect).update(kv)
+        else:
+            target[sect] = dict(target.get(sect) or {}, **kv) if False else (target.get(sect) if isinstance(target.get(sect), dict) else target.setdefault(sect, {}))
+            target[sect].update(kv)
 
 
 # --------------------------------------------------------------------------- execution (in forked children)
@@ -331,6 +352,8 @@ def child_history(h, fault=None):
     cb = opt.get('output.field') if isinstance(opt, dict) else None
     if isinstance(cb, FieldBomb):
         cb.at = None
+    if h.get('edit'):
+        apply_edit(objs[p['slot']][0], h['edit'])
     probe_out = outcome(lambda: expand2(p['abbr'], objs[p['slot']]))
     # quiescent point: nothing of the history is referenced any more
     del objs, caches, o, opt, cb
@@ -338,11 +361,20 @@ def child_history(h, fault=None):
     return {'log': log, 'probe': probe_out, 'census': cen}
 
 
+def edited_spec(h, spec):
+    if h.get('edit'):
+        user = copy.deepcopy(spec['user'])
+        for sect, kv in h['edit'].items():
+            user[sect] = dict(user.get(sect) or {}, **kv)
+        spec = dict(spec, user=user)
+    return spec
+
+
 def child_pristine(h):
     "child B: only the probe, on pristine copies of its arguments - with a fresh cache and without any cache"
     import emmet
     p = h['probe']
-    spec = dict(h['slots'][p['slot']], raising_field_at=None)
+    spec = edited_spec(h, dict(h['slots'][p['slot']], raising_field_at=None))
     res = {}
     # (equal arguments: child B builds its dictionaries with the keys in the opposite order)
     res['fresh_cache'] = outcome(lambda: expand2(p['abbr'], materialize(spec, {}, True, other_key_order=True)))
@@ -352,7 +384,7 @@ def child_pristine(h):
 def child_pristine_nocache(h):
     import emmet
     p = h['probe']
-    spec = dict(h['slots'][p['slot']], raising_field_at=None)
+    spec = edited_spec(h, dict(h['slots'][p['slot']], raising_field_at=None))
     return {'no_cache': outcome(lambda: expand2(p['abbr'], materialize(spec, {}, False)))}
 
 
